@@ -190,12 +190,33 @@ def execute(hist, collect=None):
             lb, ub = np.array([op["lb"]], dtype=float), np.array([op["ub"]], dtype=float)
             n_logged = fl.Xn + 1
             Xl = fl.X[:n_logged].copy()
+            cons_fn, feas_rows = None, None
+            if op.get("cons") and vt is not None:
+                # non-box constraint given in internal coordinates (evaluated through the transform, the same function
+                # for the filter and for the oracle): a cube cut out around the origin, or a half-space
+                cs = op["cons"]
+
+                def viol(X, cs=cs):
+                    Ui = np.atleast_2d(vt(np.atleast_2d(np.asarray(X, dtype=float))))
+                    if cs["kind"] == "hole":
+                        return cs["r"] - np.max(np.abs(Ui), axis=1)
+                    return Ui[:, cs["j"] % D] * cs["sign"] - cs["thr"]
+                if cs.get("ret") == "bool":
+                    cons_fn = lambda X: viol(X) > 0
+                else:
+                    cons_fn = viol
+
+                def feas_rows(out_):
+                    o2 = np.atleast_2d(out_)
+                    v_ = viol(vt.inverse_transf(o2))
+                    bad = np.nonzero(v_ > 0)[0]
+                    return o2[bad[0]] if bad.size else None
             try:
-                out = contraints_check(U.copy(), lb, ub, op["tol"], fl, op["proj"], None)
+                out = contraints_check(U.copy(), lb, ub, op["tol"], fl, op["proj"], cons_fn)
             except Exception as e:   # noqa
                 P("C17", "filter-raised", f"candidate filter raised {type(e).__name__}: {e}", i)
                 continue
-            probs, hits = W.filter_problems(U, lb, ub, op["tol"], Xl, op["proj"], out)
+            probs, hits = W.filter_problems(U, lb, ub, op["tol"], Xl, op["proj"], out, feas_rows)
             stats["filter_hits"] += len(hits)
             for cls, msg, _ in probs:
                 P("C17", cls, msg, i)
@@ -357,7 +378,16 @@ def gen_history(seed, index):
                     U.append(newpoint())
             if U and rng.random() < 0.3:
                 U.append(list(U[0]))
-            ops.append(dict(op="filter", U=U, lb=[-1.0] * D, ub=[1.0] * D, tol=tol, proj=rng.random() < 0.5))
+            fop = dict(op="filter", U=U, lb=[-1.0] * D, ub=[1.0] * D, tol=tol, proj=rng.random() < 0.5)
+            if cfg["transform"] != "none" and rng.random() < 0.45:
+                if rng.random() < 0.6:
+                    fop["cons"] = dict(kind="hole", r=rng.choice([0.1, 0.3, 0.6]), ret=rng.choice(["float", "bool"]))
+                    if rng.random() < 0.5:
+                        # candidate sets made of (or containing) the origin itself
+                        fop["U"] = [[0.0] * D] if rng.random() < 0.5 else U + [[0.0] * D]
+                else:
+                    fop["cons"] = dict(kind="half", j=rng.randrange(D), sign=rng.choice([-1, 1]), thr=rng.choice([0.0, 0.3, -0.3]), ret=rng.choice(["float", "bool"]))
+            ops.append(fop)
             continue
         if want_faults and t < 0.22:
             kinds = ["raise", "val:nan", "val:inf", "val:complex", "val:vector", "val:none"]
